@@ -100,6 +100,17 @@ def scOf (a : Opd Rat) (out_i : Index) : SC Rat :=
 
 def zeroMat : Mat Rat := fun _ _ => 0
 
+/-- square root of a rational to about 1e-30 (integer square root of the 2^200-scaled value): the driver's
+    stand-in for `np.sqrt` inside `to_euler` (the comparison is quantised to 2^-16) -/
+def ratSqrt (x : Rat) : Rat :=
+  if x ≤ 0 then 0 else
+  let scale : Nat := 2 ^ 200
+  let n := (x.num.toNat * scale) / x.den
+  mkRat (Nat.sqrt n) (2 ^ 100)
+
+/-- `v <= Matrix3.EPSILON` (1e-15) -/
+def smallEps (v : Rat) : Bool := decide (v ≤ mkRat 1 1000000000000000)
+
 def handle : List Sx → Sx
   | [.atom mode, .atom "dot", a, b, ax1, ax2] =>
     match parseOpd a, parseOpd b, ax1.toInt?, ax2.toInt? with
@@ -162,6 +173,24 @@ def handle : List Sx → Sx
         (fun i => (qToMatrix3 sqrt2 pn[ravel a.shape i]! (q4 a i) (a.mask i) zeroMat).1)
         fun i => (qToMatrix3 sqrt2 pn[ravel a.shape i]! (q4 a i) (a.mask i) zeroMat).2)
     | _, _, _ => err "operand"
+  | [.atom mode, .atom "toeuler", .atom axes, a] =>
+    -- answer: numer [3, 2] = (sin, cos) of the three returned angles
+    match lookupAxes axes, parseOpd a with
+    | some cv, some a =>
+      let f := fun (i : Index) => toEuler ratSqrt smallEps cv (matOf a i)
+      outOpd mode ⟨a.shape, [3, 2], [], fun i j =>
+        let (x, y, z) := f i
+        let sc := match j.headD 0 with | 0 => x | 1 => y | _ => z
+        if j.getD 1 0 = 0 then sc.s else sc.c, a.mask⟩
+    | none, _ => .atom "Other:KeyError"
+    | _, _ => err "operand"
+  | [.atom mode, .atom "m2q", a, rs] =>
+    -- rs: what np.sqrt returned for r_sq, one value per leading element
+    match parseOpd a, Sx.rats? rs with
+    | some a, some rs =>
+      let rs := rs.toArray
+      outOpd mode (ofQ4 a.shape (fun i => fromMatrix3 (fun x y => decide (x ≤ y)) rs[ravel a.shape i]! (matOf a i) ⟨0, 0, 0, 0⟩) a.mask)
+    | _, _ => err "operand"
   | [.atom mode, .atom "fromparts", s, v] =>
     match parseOpd s, parseOpd v with
     | some s, some v =>
